@@ -537,3 +537,31 @@ def _(v):
                 out[label] = False
     v.prove("different_lengths_are_not_close", not any(out.values()), detail=repr(out))
     v.prove("equal_lengths_element_wise", bool(allclose([1 * u.m, 2 * u.km], [100 * u.cm, 2000 * u.m])) and not bool(allclose([1 * u.m, 2 * u.km], [100 * u.cm, 2001 * u.m])))
+
+
+@harness("C09", "polyfit_with_further_outputs", functions=[U + ":polyfit"], kind="data")
+def _(v):
+    """'polynomial fit … returns what the plain numerical routine returns on the magnitudes expressed in one common unit, times that unit', also
+    when the routine is asked for more than the coefficients (cov=True, full=True): the coefficients still carry u_y*u_x**(i-deg) each -- the
+    intercept is a length, not a velocity -- and nothing that is not a coefficient is labelled as one; the further outputs are the numbers the
+    numerical routine returns for the magnitudes (or the request is refused)"""
+    import numpy as np
+    from chempy import units as CU
+    from chempy.units import default_units as u
+    xs, ys = [0.0, 1.0, 2.0, 3.0, 4.0], [0.0, 1.1, 1.9, 3.2, 3.9]
+    x, y = np.array(xs) * u.s, np.array(ys) * u.m
+    for kw, ref in (({"cov": True}, np.polyfit(xs, ys, 1, cov=True)), ({"full": True}, np.polyfit(xs, ys, 1, full=True))):
+        label = list(kw)[0]
+        try:
+            r = CU.polyfit(x, y, 1, **kw)
+        except (ValueError, TypeError, NotImplementedError):
+            v.prove(label + ".coefficients_keep_their_units", True, detail="refused")
+            continue
+        try:
+            coeffs, rest = r[0], r[1:]
+            ok = (len(coeffs) == 2 and abs(float(CU.to_unitless(coeffs[0], u.m / u.s)) - ref[0][0]) < 1e-12 and abs(float(CU.to_unitless(coeffs[1], u.m)) - ref[0][1]) < 1e-12
+                  and len(rest) == len(ref) - 1 and all(np.allclose(np.asarray(CU.magnitude(a), dtype=float), np.asarray(b, dtype=float)) for a, b in zip(rest, ref[1:])))
+            det = repr(r)[:300]
+        except Exception as ex:
+            ok, det = False, "%r -> %r" % (r, ex)
+        v.prove(label + ".coefficients_keep_their_units", ok, detail=det[:300])
